@@ -333,6 +333,45 @@ theorem in_verdict (text key arg cus : Bytes) (hp : parseValidNameKV text = (key
             simp only [hinc', Bool.false_eq_true, if_false]
             exact verdict_ite _ _ _ (PGV.Proofs.Size.violClause_ne_nil _ _ _ _ _) (contains_eq_any os s).symm
 
+/-- `in` on a number or a bool: the value is compared through its canonical rendering (`ToStr`:
+decimal integers, shortest round-trip floats, `true` / `false`) -/
+theorem in_verdict_scalar (text key arg cus : Bytes) (hp : parseValidNameKV text = (key, arg, cus))
+    (hk : (key == b! "include") = false) (os : List Bytes) (ho : options arg = some os)
+    (tv : GoVal) (t : Bytes) (hts : tv.toStr = some t) :
+    Verdict (ruleIn ext text obj field tv) (os.contains t) := by
+  unfold options at ho
+  cases hl : Bytes.indexByte? 40 arg with
+  | none => simp [hl] at ho
+  | some l =>
+    cases hr : Bytes.lastIndexByte? 41 arg with
+    | none => simp [hl, hr] at ho
+    | some r =>
+      simp only [hl, hr] at ho
+      by_cases hlt : r < l
+      · simp [hlt] at ho
+      · simp only [hlt, if_false] at ho
+        by_cases hemp : (pieces 47 false ((arg.take r).drop (l + 1))).any (·.isEmpty) = true
+        · simp [hemp] at ho
+        · simp only [hemp, Bool.false_eq_true, if_false, Option.some.injEq] at ho
+          have hne : ∀ p ∈ pieces 47 false ((arg.take r).drop (l + 1)), p ≠ [] := by
+            intro p hp' e; subst e
+            exact hemp (List.any_eq_true.mpr ⟨[], hp', rfl⟩)
+          have hfin : Verdict
+              (if ((List.map (Bytes.trimByte QUOTE) (validNamesSplit ((arg.take r).drop (l + 1)) 47)).any fun o => t == o) = true
+                then (pure [] : M Bytes)
+                else pure (violClause obj field t cus [b! "it should " ++ key ++ b! " (" ++ (arg.take r).drop (l + 1) ++ b! ")"]))
+              (os.contains t) := by
+            rw [split_eq_pieces _ hne, ho]
+            exact verdict_ite _ _ _ (PGV.Proofs.Size.violClause_ne_nil _ _ _ _ _) (contains_eq_any os t).symm
+          cases tv <;> simp only [GoVal.toStr, Option.some.injEq] at hts <;> try (exact absurd hts (by simp))
+          all_goals
+            subst hts
+            unfold ruleIn
+            rw [hp]
+            simp only [lastIndexByte, hl, hr, hlt, if_false, in_core arg l r hl hr hlt, hk, Bool.false_eq_true,
+              bind, Except.bind, pure, Except.pure, toStrIface, toStrDyn, GoVal.toStr]
+            exact hfin
+
 theorem sound_in (hs : Shape (b! "in") arg) (h : accepts (mkText (b! "in") arg msg) s = some b) :
     ∃ run, builtin (b! "in") = some (.fn run) ∧ Verdict (run ext (mkText (b! "in") arg msg) obj field (.str s)) b := by
   refine ⟨_, rfl, ?_⟩
@@ -360,6 +399,43 @@ theorem sound_include (hs : Shape (b! "include") arg) (h : accepts (mkText (b! "
     simp (decide := true) only [if_true] at this
     rw [h] at this
     exact this
+
+theorem toStrIface_scalar (tv : GoVal) (t : Bytes) (h : tv.toStr = some t) : toStrIface ext tv = pure t := by
+  cases tv <;> simp_all [GoVal.toStr, toStrIface, toStrDyn]
+
+theorem mapM_toStr (l : List GoVal) (ts : List Bytes) (h : l.mapM GoVal.toStr = some ts) :
+    l.mapM (toStrIface ext) = pure ts := by
+  induction l generalizing ts with
+  | nil => simp at h; subst h; rfl
+  | cons a r ih =>
+    rw [List.mapM_cons] at h ⊢
+    cases ha : a.toStr with
+    | none => simp [ha] at h
+    | some t =>
+      cases hr : r.mapM GoVal.toStr with
+      | none => simp [ha, hr] at h
+      | some rest =>
+        simp [ha, hr] at h
+        subst h
+        rw [toStrIface_scalar ext a t ha, ih rest hr]
+        rfl
+
+/-- `unique` on a slice or array of scalars: violated exactly when two renderings coincide -/
+theorem unique_verdict_slice (text : Bytes) (tstr elemT : Bytes) (isNil : Bool) (es : GoVals) (ts : List Bytes)
+    (h : es.toList.mapM GoVal.toStr = some ts) :
+    Verdict (ruleUnique ext text obj field (.slice tstr elemT isNil es)) (distinct ts) := by
+  simp only [ruleUnique, mapM_toStr ext _ ts h, bind, Except.bind, pure, Except.pure]
+  exact verdict_ite _ _ _ (PGV.Proofs.Size.violClause_ne_nil _ _ _ _ _) (allDistinct_eq_distinct ts)
+
+/-- `ints` on a slice or array of scalars: violated exactly when some rendering is not all digits -/
+theorem ints_verdict_slice (text : Bytes) (tstr elemT : Bytes) (isNil : Bool) (es : GoVals) (ts : List Bytes)
+    (h : es.toList.mapM GoVal.toStr = some ts) :
+    Verdict (ruleInts ext text obj field (.slice tstr elemT isNil es)) (ts.all Spec.Lang.int) := by
+  simp only [ruleInts, mapM_toStr ext _ ts h, bind, Except.bind, pure, Except.pure]
+  rcases parseValidNameKV text with ⟨k, a, m⟩
+  simp only
+  have : Lang.intRe = Spec.Lang.int := funext PGV.Proofs.LangEq.int_eq
+  exact verdict_ite _ _ _ (PGV.Proofs.Size.violClause_ne_nil _ _ _ _ _) (by rw [this])
 
 end
 end PGV.Proofs.Accepts
